@@ -210,3 +210,65 @@ CANARIES = [
     dict(name="publish resolves without removing the subscriber", file=FS, engine_check=1,
          find="        future = self._subscribers.pop(response.message_id, None)", replace="        future = self._subscribers.get(response.message_id, None)"),
 ]
+
+
+# ---- ProcessorSampler: the concurrency limiter is held until the job's results have arrived ------------------------------------
+FP = "cirq-google/cirq_google/engine/processor_sampler.py"
+_HELD = {"n": 0, "max": 0}
+
+
+class _Limiter(sym.Sym):
+    """duet.Limiter as a counter of held slots (abstract: waiting for a free slot is the scheduler's business)"""
+
+    def aenter(self):
+        _HELD["n"] += 1
+        _HELD["max"] = max(_HELD["max"], _HELD["n"])
+
+    def aexit(self):
+        _HELD["n"] -= 1
+
+
+class _EngineJob(sym.Sym):
+    def results_async(self):
+        return "RESULTS"
+
+
+class _Processor(sym.Sym):
+    def run_sweep_async(self, **kw):
+        return _EngineJob()
+
+
+def _sampler(name):
+    import cirq_google
+
+    _HELD["n"] = _HELD["max"] = 0
+    return SRec(cirq_google.ProcessorSampler, {"_concurrent_job_limiter": _Limiter(), "_processor": _Processor(), "_run_name": "r", "_snapshot_id": "s", "_device_config_name": "d"})
+
+
+def _before_sampler_call(interp, fn, args, kwargs, node, env):
+    import ast
+
+    name = node.func.attr if isinstance(node.func, ast.Attribute) else None
+    if name in ("run_sweep_async", "results_async"):
+        paths.current().prove(z3.BoolVal(_HELD["n"] == 1), f"{interp.current_owner}#assert@{name}.slot-held[line {node.lineno}]", "assert")
+
+
+def slots_released():
+    return _HELD["n"] == 0 and _HELD["max"] == 1
+
+
+slots_released._pyvc_native_ok = True
+
+Contract(
+    FP + ":ProcessorSampler._run_sweep_async", "C20",
+    params={"self": _sampler, "program": ("const", "PROGRAM"), "params": ("const", "PARAMS"), "repetitions": "nat"},
+    ensures=["result == 'RESULTS'", "slots_released()"],
+    env={"slots_released": slots_released},
+    hooks={"before_call": _before_sampler_call},
+    notes="one limiter slot is held from before the job is created until its results have arrived (so max_concurrent_jobs bounds the jobs in flight), and released on every exit",
+)
+
+CANARIES = list(globals().get("CANARIES", [])) + [
+    dict(name="ProcessorSampler releases its slot before awaiting the results", file=FP, function=FP + ":ProcessorSampler._run_sweep_async",
+         find="            )\n\n            return await job.results_async()", replace="            )\n\n        return await job.results_async()"),
+]
